@@ -1,6 +1,7 @@
 package main
 
 import (
+	"go/types"
 	"sort"
 	"fmt"
 	"go/token"
@@ -257,7 +258,49 @@ func runC09(r *Run) {
 		r.Check(lim["startTime <="] && lim["endTime >="], "R4", fnID(fn)+"#limits", P.Pos(fnPos(fn)), "readTime <= startTime and readTime >= endTime are handled up front",
 			fmt.Sprintf("the limit guards are %v, expected readTime <= startTime (nothing yet) and readTime >= endTime (everything)", keysOf(lim)))
 	}
+	r.Rule("R5", "FLOW.grant-start: the start time handed to addGrant (which DisjunctPeriods takes as the start of the grant's own periods) derives from the grant's start — a parameter or message field of the calling function — and never from the target account's StartTime")
+	checkGrantStart(r, "R5")
 	_ = fmt.Sprint
+}
+
+// checkGrantStart: every addGrant call passes the grant's own start time. DisjunctPeriods reads each
+// schedule's periods relative to that schedule's start and aligns the two itself; a start that is mixed
+// with the account's start (min/max of both) moves every release event of the grant by the difference.
+func checkGrantStart(r *Run, rule string) {
+	P := r.P
+	ag, ok := P.FnOK("(x/vesting/keeper.Keeper).addGrant")
+	if !ok {
+		r.Bad(rule, "anchor/addGrant", "", "not found")
+		return
+	}
+	n := 0
+	for _, fn := range P.Funcs {
+		if isTestSupport(P, fn) || fn.Synthetic != "" {
+			continue
+		}
+		eachCall(fn, func(ci CallInfo) {
+			if ci.Static != ag {
+				return
+			}
+			n++
+			arg := argN(ci.Instr, 2) // (ctx, va, grantStartTime, …)
+			if p, ok := ag.Params[3].Object().(*types.Var); !ok || p.Name() != "grantStartTime" {
+				r.Fail("addGrant's third parameter is %v, expected grantStartTime", ag.Params[3].Name())
+			}
+			sl := backSlice(arg)
+			fromAcc := sl.HasField("ClawbackVestingAccount", "StartTime") || sl.HasCall(func(g CallInfo) bool { return g.Name == "GetStartTime" && strings.HasSuffix(g.Recv, "VestingAccount") && !strings.HasPrefix(g.Recv, "Msg") })
+			own := false
+			sl.Any(func(v ssa.Value) bool {
+				if p, ok := v.(*ssa.Parameter); ok && p.Parent() == fn && namedName(p.Type()) != "Context" && namedName(p.Type()) != "Keeper" {
+					own = true
+				}
+				return false
+			})
+			r.Check(!fromAcc && own, rule, fnID(fn)+"#addGrant-start", P.Pos(instrPos(ci.Instr)), "grant start derives from the caller's own input only",
+				fmt.Sprintf("the grant start time given to addGrant %s: the grant's periods are then read relative to a start that is not the grant's (every release event of the merged grant moves by the difference — earlier when the account started first)", map[bool]string{true: "depends on the target account's StartTime", false: "does not derive from a parameter of the caller"}[fromAcc]))
+		})
+	}
+	r.Floor(rule, "addGrant call sites", n, 2)
 }
 
 func flipCmp(op token.Token) token.Token {
